@@ -36,9 +36,27 @@ pub fn check_parse(text: &[u32], o: &mut Outcome) {
 
 /// print direction: printable ASCII only, quotes doubled, body reads back to the original
 pub fn check_print(s: &[u32], o: &mut Outcome) {
-    o.evals += 1;
     let cs = SmtString::from(s);
-    let printed = cs.to_string();
+    check_printed(s, cs.to_string(), o);
+    // the same Display implementation reached through format specifications with a width: the
+    // literal may be padded as a whole (spaces outside the quotes are trimmed here) but what is
+    // between the quotes must still denote the string. (No precision: truncation on request is
+    // Rust's documented meaning of a precision on text.)
+    if s.len() <= 3 && o.fails.is_empty() {
+        for padded in [format!("{:7}", cs), format!("{:>9}", cs), format!("{:^3}", cs)] {
+            let trimmed = padded.trim_matches(' ').to_string();
+            let before = o.fails.len();
+            check_printed(s, trimmed, o);
+            if o.fails.len() > before {
+                let f = o.fails.last_mut().unwrap();
+                f.msg = format!("through a format specification with a width ({:?}): {}", padded, f.msg);
+            }
+        }
+    }
+}
+
+fn check_printed(s: &[u32], printed: String, o: &mut Outcome) {
+    o.evals += 1;
     let chars: Vec<u32> = printed.chars().map(|c| c as u32).collect();
     if chars.len() < 2 || chars[0] != 0x22 || chars[chars.len() - 1] != 0x22 {
         o.fail("C08/print/not-quoted", format!("Display of {} = {:?} is not enclosed in double quotes", show_str(s), printed));
@@ -111,6 +129,9 @@ pub fn check_char_printers(x: u32, o: &mut Outcome) {
         }
     }
 }
+
+/// complete escapes whose characters are replaced one at a time by every non-ASCII code point
+const ROLE_TEMPLATES: &[&[u32]] = &[&[0x5C, 0x75, 0x30, 0x30, 0x34, 0x31], &[0x5C, 0x75, 0x7B, 0x34, 0x31, 0x7D]];
 
 const TOKENS: &[&[u32]] = &[
     &[0x5C],
@@ -348,6 +369,17 @@ pub fn enumerate(thorough: bool, part: usize, parts: usize, sink: &mut EnumSink)
         check_print(&[x], &mut o);
         check_print(&[0x5C, 0x75, x], &mut o);
         check_char_printers(x, &mut o);
+        // x in every syntactic role of an escape (a reader that recognises `\`, `u`, `{`, `}` or a hex
+        // digit by anything less than the whole code point takes x for one of them)
+        if x > 0x7F && char::from_u32(x).is_some() {
+            for tmpl in ROLE_TEMPLATES {
+                for k in 0..tmpl.len() {
+                    let mut w: Vec<u32> = tmpl.to_vec();
+                    w[k] = x;
+                    check_parse(&w, &mut o);
+                }
+            }
+        }
         if char::from_u32(x).is_some() {
             check_parse(&[0x5C, 0x75, x, 0x7B, x], &mut o);
         }
@@ -356,7 +388,7 @@ pub fn enumerate(thorough: bool, part: usize, parts: usize, sink: &mut EnumSink)
     }
     if part == 0 {
         sink.stats.exhaustive_spaces.push(format!(
-            "all texts of length <= {} over the 10 symbols \\ u {{ }} 0 2 3 f A g; all structured texts prefix.\\u[{{]hex^k.terminator.suffix for k <= 7; all strings of length <= {} over 9 code points (\\ u {{ }} 4 1 \" 0x7f 0x2ffff) printed and read back; every single code point printed (Display, char_to_smt, smt_char_as_string)",
+            "all texts of length <= {} over the 10 symbols \\ u {{ }} 0 2 3 f A g; all structured texts prefix.\\u[{{]hex^k.terminator.suffix for k <= 7; all strings of length <= {} over 9 code points (\\ u {{ }} 4 1 \" 0x7f 0x2ffff) printed and read back; every single code point printed (Display, char_to_smt, smt_char_as_string) and, above 0x7F, substituted for each character of `\\u0041` and `\\u{{41}}` in turn",
             max_len, plen
         ));
         sink.stats.samples.push("[enum] text `\\u{2f}` ; text `\\u{\\u0041` ; string <5c 75 7b 34 31 7d>".to_string());
